@@ -177,7 +177,21 @@ async fn scenario(case: &Value) -> Value {
         };
         late.insert(id.clone(), subscribe(&client, url));
     }
-    tokio::time::sleep(Duration::from_millis(300)).await;
+    // a late subscriber gets the past frames at once; on a busy machine "at once" is given up to 4 s
+    let deadline = std::time::Instant::now() + Duration::from_secs(4);
+    loop {
+        let done = kinds.keys().all(|id| {
+            let want = frames_of(&data, id).len();
+            let have = late.get(id).map(|(s, _)| s.lock().unwrap().len()).unwrap_or(0);
+            let live_have = subs.get(id).map(|(s, _)| s.lock().unwrap().len()).unwrap_or(0);
+            have >= want && live_have >= want
+        });
+        if done || std::time::Instant::now() >= deadline {
+            break;
+        }
+        tokio::time::sleep(Duration::from_millis(25)).await;
+    }
+    tokio::time::sleep(Duration::from_millis(150)).await;
     server.stop().await;
     let _ = provider.stop();
     // ---- collect the replicas
@@ -224,7 +238,15 @@ async fn scenario(case: &Value) -> Value {
                 subs2.insert(id.clone(), subscribe(&client, format!("{base2}/threads/{id}/events")));
             }
         }
-        tokio::time::sleep(Duration::from_millis(400)).await;
+        let deadline2 = std::time::Instant::now() + Duration::from_secs(4);
+        loop {
+            let done = subs2.iter().all(|(id, (s, _))| s.lock().unwrap().len() >= frames_of(&data, id).len());
+            if done || std::time::Instant::now() >= deadline2 {
+                break;
+            }
+            tokio::time::sleep(Duration::from_millis(25)).await;
+        }
+        tokio::time::sleep(Duration::from_millis(150)).await;
         server2.stop().await;
         for (id, (sink, h)) in subs2 {
             after_fault.insert(id, json!(sink.lock().unwrap().clone()));
